@@ -5,6 +5,7 @@ package main
 
 import (
 	"fmt"
+	"go/ast"
 	"go/constant"
 	"go/token"
 	"go/types"
@@ -103,6 +104,8 @@ type Obligation struct {
 	Props    []string
 	fc       *fnCtx
 	Inputs   []modelInput
+	Skolems  []modelInput
+	Clause   ast.Expr
 	// result
 	Res     SolverResult
 	Trivial bool
@@ -150,6 +153,7 @@ type fnCtx struct {
 	inlineFailed bool
 	specErrors   []string
 	lemmaName    string
+	curSkolems   []modelInput
 	boundCalls   map[int]bool
 	boundAfters  map[int]bool
 	framedBases  map[string]bool
@@ -503,9 +507,9 @@ func cellName(a *ssa.Alloc) string {
 // ---------------------------------------------------------------------------
 // obligations
 
-func (fc *fnCtx) oblige(st *State, kind string, ordKey string, goal string, desc string, pos token.Pos, explicit bool) {
+func (fc *fnCtx) oblige(st *State, kind string, ordKey string, goal string, desc string, pos token.Pos, explicit bool) *Obligation {
 	if fc.specMode || st.dead {
-		return
+		return nil
 	}
 	t := fc.top
 	name := ordKey
@@ -535,7 +539,10 @@ func (fc *fnCtx) oblige(st *State, kind string, ordKey string, goal string, desc
 	if t.contract != nil {
 		o.Props = t.contract.Props
 	}
+	o.Skolems = t.curSkolems
+	t.curSkolems = nil
 	t.obligations = append(t.obligations, o)
+	return o
 }
 
 func (fc *fnCtx) funcName() string {
